@@ -49,7 +49,8 @@ CLAIMED["C02"] = {
             "Records::nsamples / nfeatures of an array are axis extents on every path (a (0, k) matrix has k features); binary_search never runs directly on a caller-supplied slice. "
             "CountedTargets values are built by counting the targets they wrap (CountedTargets::new, or a count incremented in the same loop that collects them, in maps that start empty); a cache taken from another container's counts is a violation, one assembled by hand is left undecided. "
             "Not decided: multiset equality of rows as values. "
-            "Also decided: Iterator impls of the dataset iterators that override `nth` advance relative to the current position (a position field that `next` increments is not overwritten with a value that forgets it; any other overriding method that does not go through self.next() is left undecided); a CountedTargets cache filled from label_frequencies() - per-label sums of the sample weights - counts as taken from a foreign source.",
+            "Also decided: Iterator impls of the dataset iterators that override `nth` advance relative to the current position (a position field that `next` increments is not overwritten with a value that forgets it; any other overriding method that does not go through self.next() is left undecided); a CountedTargets cache filled from label_frequencies() - per-label sums of the sample weights - counts as taken from a foreign source. "
+            "No count or index of the dataset code is narrowed to an integer type of 32 bits or fewer (or kept in a u8 / u16 counter) unless its source is bounded in the expression itself.",
     "design_ref": "DESIGN.md section 4, C02",
     "note": "Trusted: rustc resolution/typeck, the fact dump, documented semantics of ndarray selection methods and Vec::split_off.",
     "technique": _T + ": provenance trace of output containers with selector extraction and sibling agreement of selectors",
@@ -65,7 +66,8 @@ CLAIMED["C03"] = {
             "whiteners' transforms); model types contain no interior mutability; the composing wrappers follow their parts (the running arg-max replaces label and incumbent probability together; MultiClassModel's constructors keep every member - no keyed container or dropping adaptor on the member list; Pr::try_from, the range check behind Pr::new, rejects NaN when evaluated abstractly with a NaN argument). Not "
             "decided: equality of floating-point roundings between batch and single-row evaluation. "
             "Also decided: no ordering written out in the linfa crate (the `Pr` the composed models select by) compares floating-point values through `to_bits()`; MultiTargetModel reshapes the collected predictions as (number of models, number of rows) - read structurally, through accessor methods - and transposes. "
-            "The loop over the one-vs-all members of MultiClassModel has no written-out `break` / `return` (every member is consulted; a batch-level confidence test would make a row's label depend on the other rows).",
+            "The loop over the one-vs-all members of MultiClassModel has no written-out `break` / `return` (every member is consulted; a batch-level confidence test would make a row's label depend on the other rows). "
+            "A buffer filled in the order of an argsort is not read back through that order's *values* (the permutation applied twice); blocked loops place block b at b times the nominal block length.",
     "design_ref": "DESIGN.md section 4, C03",
     "note": "Trusted: rustc resolution/typeck, the fact dump; ndarray's elementwise ops, dot and row iterators are row-local.",
     "technique": _T + ": batch-axis abstract interpretation, dominance of shape checks over output writes, type-closure scan for interior mutability",
@@ -86,7 +88,8 @@ CLAIMED["C04"] = {
             "Constructor shortcuts (`Model::params(..)`) build the same value as the constructor they forward to: a builder method applied with an argument of the shortcut's own choosing must store what the constructor stores anyway. "
             "Not decided: behaviour of training on valid parameters. "
             "Also decided: a float `is_positive()` is the sign-bit test (true for +0.0) and is modelled as `>= 0`; a rejection that only applies under a test of another, non-numeric parameter (`algorithm == Nipals && max_iter == 0`) rejects nothing of the documented range; hand-written `From<A> for B` whose target enum has a variant made to hold an `A` builds that variant (R-C04-from); validation helpers are read as part of the check also when they are handed the whole set under another name, take tuple parameters, end in a tail call of the next helper, or guard a match arm. "
-            "Guards that combine parameters arithmetically (`penalty * l1_ratio < 0`) are evaluated as linear conditions on the parameter under analysis with the others at a witness value, and again with every boundary value of the others: the documented range holds for all of them. A verdict bound to a local (`let is_valid = match ..`) is read as its region.",
+            "Guards that combine parameters arithmetically (`penalty * l1_ratio < 0`) are evaluated as linear conditions on the parameter under analysis with the others at a witness value, and again with every boundary value of the others: the documented range holds for all of them. A verdict bound to a local (`let is_valid = match ..`) is read as its region. "
+            "A test on `obj.method(param)` (a converted copy: a squared tolerance that underflows) is a test on the copy, reported like `to_f32()`; one-parameter predicates of the same crate are read through; `to_u32().map_or(false, |c| ..)` is a test on the narrowed value.",
     "design_ref": "DESIGN.md section 4, C04",
     "note": "Trusted: rustc resolution/typeck, the fact dump, the documented range table frozen in rules/c04.py (one source reference per row). NaN/infinite parameter values are outside the claim, as in the property.",
     "technique": _T + ": guard extraction + interval algebra vs documented table, dominance of the check over entry points, who-may-construct on checked types",
@@ -106,7 +109,8 @@ CLAIMED["C07"] = {
             "The dimension test of a query runs outside the loop over the stored points (an empty index must reject a malformed query too); the index types contain no interior mutability (a query cannot change the answer to the next); in linfa-nn no generic-float / f64 value is narrowed to f32 and stored, and no f32 arithmetic over converted values is widened back into the generic float. "
             "Not decided: geometric sufficiency of pruning bounds, k-NN ties. "
             "Also decided: no allocation in linfa-nn is sized by a caller-supplied count alone (`with_capacity(k)` aborts for the k > n the property speaks about); a `from_batch` written out on CommonNearestNeighbour is a second dispatcher and is held to the same arm test; an impl of Distance that overrides one of rdistance / dist_to_rdist / rdist_to_dist overrides all three. "
-            "A power of a coordinate difference in a Distance impl is taken of its absolute value or with a literal even exponent; the linear scan's admission through rdist_to_dist(..) < range counts as a plain-distance admission; the k-d tree's post-filter carries no additive slack.",
+            "A power of a coordinate difference in a Distance impl is taken of its absolute value or with a literal even exponent; the linear scan's admission through rdist_to_dist(..) < range counts as a plain-distance admission; the k-d tree's post-filter carries no additive slack. "
+            "No shortcut replaces a computed distance on the identity of two views' addresses alone (a row and a column of one matrix start at the same element).",
     "design_ref": "DESIGN.md section 4, C07",
     "note": "Trusted: rustc resolution/typeck, the fact dump (also of the locked kdtree dependency), consistency of each metric's four Distance methods.",
     "technique": _T + ": unit-of-measure tag inference (dist/rdist), sibling agreement of argument checks and of the radius relation, dependency facts for kdtree, homogeneity-degree abstract interpretation of the Distance impls",
@@ -124,7 +128,8 @@ CLAIMED["C08"] = {
             "No `dedup()` on a list whose element type's hand-written PartialEq ignores fields (OPTICS' Sample compares by reachability only). Hand-written Clone impls of the parameter sets and models copy every field (derived ones do by construction), no builder method resets another user-settable field to a value that does not depend on its argument, and builder methods that rebuild the struct carry every field; no generic-float / f64 value is narrowed to f32 and stored, and no f32 arithmetic over converted values is widened back into the generic float. "
             "Not decided: OPTICS reachability values, border-point labels. "
             "Also decided: every distance in DBSCAN / OPTICS is computed with the configured metric (a concrete metric type inside the generic code is a violation); the OPTICS core distance is taken from the neighbour of rank min_points - 1 with no value-dependent adaptor (skip_while, filter, dedup) in between; forwarding impls of Distance forward the whole reduced-scale trio. "
-            "(through the shared linfa-nn rules) the same admission clauses: reduced against reduced in the linear scan, no slack in the k-d tree's post-filter.",
+            "(through the shared linfa-nn rules) the same admission clauses: reduced against reduced in the linear scan, no slack in the k-d tree's post-filter. "
+            "Cluster ids, queue marks and neighbour counts of DBSCAN / OPTICS are not narrowed to 32 bits or fewer (65536 clusters wrap a u16 mark); the address rule of linfa-nn applies to the queries made here.",
     "design_ref": "DESIGN.md section 4, C08",
     "note": "Trusted: rustc resolution/typeck, the fact dump.",
     "technique": _T + ": control dependence of frontier insertions on the canonical core condition, order taint of range-query results",
@@ -142,7 +147,8 @@ CLAIMED["C09"] = {
             "Hand-written Clone impls of the parameter sets and models copy every field (derived ones do by construction), no builder method resets another user-settable field to a value that does not depend on its argument, and builder methods that rebuild the struct carry every field; no generic-float / f64 value is narrowed to f32 and stored, and no f32 arithmetic over converted values is widened back into the generic float. "
             "Not decided: cost monotonicity, bounding box, numeric inertia values. "
             "Also decided: `rows().enumerate().skip(1)` is a full scan when the incumbent starts from (0, rdistance(row 0, x)); counts taken through `&mut` method borrows are computed counts. "
-            "No local declared before the restart loop of fit is assigned only inside the iteration loop (a `converged` flag that survives into the next restart); every arm of KMeansInit::run calls its own variant's routine; no per-block means averaged with one weight per block in the centroid updates.",
+            "No local declared before the restart loop of fit is assigned only inside the iteration loop (a `converged` flag that survives into the next restart); every arm of KMeansInit::run calls its own variant's routine; no per-block means averaged with one weight per block in the centroid updates. "
+            "The per-cluster counts of fit are indexed by membership values, never by the position of a run in the sorted memberships (an empty cluster shifts all later counts); the three assignment helpers have no return before their write loop.",
     "design_ref": "DESIGN.md section 4, C09",
     "note": "Trusted: rustc resolution/typeck, the fact dump, Distance::rdistance being the reduced distance of the configured metric.",
     "technique": _T + ": call-graph agreement on one arg-min routine, guarded-state consistency and reaching-definition freshness of the result fields",
@@ -162,7 +168,8 @@ CLAIMED["C10"] = {
             "The fold that takes the row maximum for the shift starts from -infinity / min_value or from data. Hand-written Clone impls of the parameter sets and models copy every field (derived ones do by construction), no builder method resets another user-settable field to a value that does not depend on its argument, and builder methods that rebuild the struct carry every field; no generic-float / f64 value is narrowed to f32 and stored, and no f32 arithmetic over converted values is widened back into the generic float. "
             "Not decided: positive definiteness, weights summing to one. "
             "Also decided: the mixing weights are column sums of the responsibilities divided by the sample count only while the responsibilities handed to the parameter estimation are the unscaled exp(log_resp) (or the divisor is their sum). "
-            "compute_precisions_full takes no path without the matrix product unless it is keyed on the feature extent (axes 1, 2) of the factor array; both factors of the covariance product are centred.",
+            "compute_precisions_full takes no path without the matrix product unless it is keyed on the feature extent (axes 1, 2) of the factor array; both factors of the covariance product are centred. "
+            "predict_inplace overwrites its target in every implementation including macro-generated ones; block offsets are nominal.",
     "design_ref": "DESIGN.md section 4, C10",
     "note": "Trusted: rustc resolution/typeck, the fact dump.",
     "technique": _T + ": ordering/dominance of refresh over store, error-propagation dataflow, shifted log-sum-exp chain rule",
@@ -185,7 +192,8 @@ CLAIMED["C12"] = {
             "No two variants of the link dispatchers share one implementing type (each arm calls the implementation named after its variant); `TweedieRegressor::params()` builds what `TweedieRegressorParams::new()` builds. "
             "Not decided: stationarity of the "
             "returned point beyond these necessary conditions, numeric range of probabilities. "
-            "The chain-rule check reads through same-crate helpers (a clamp shared 'for consistency' between link_derivative and inverse_derivative is a clamp in inverse_derivative only); every non-error path of the two logistic fits goes through the solver on the model's own problem.",
+            "The chain-rule check reads through same-crate helpers (a clamp shared 'for consistency' between link_derivative and inverse_derivative is a clamp in inverse_derivative only); every non-error path of the two logistic fits goes through the solver on the model's own problem. "
+            "The gradient tolerance handed to L-BFGS is the configured one, not multiplied or divided by a size of the data; the running maximum behind the softmax / log-sum-exp shift starts from -inf or an element, not from a finite constant; a builder method does not write another setting conditionally (`get_or_insert` of the link inside `power`).",
     "design_ref": "DESIGN.md section 4, C12",
     "note": "Trusted: rustc resolution/typeck, the fact dump; soft-max is monotone per row.",
     "technique": _T + ": dominance of validation over the optimiser call, shifted log-sum-exp chain rule, common-producer check for decision and probabilities, sibling agreement of dispatcher arms, per-path influence (data-dependence) analysis",
@@ -203,7 +211,8 @@ CLAIMED["C16"] = {
             "Hand-written Clone impls of the parameter sets and models copy every field (derived ones do by construction), no builder method resets another user-settable field to a value that does not depend on its argument, and builder methods that rebuild the struct carry every field; no generic-float / f64 value is narrowed to f32 and stored, and no f32 arithmetic over converted values is widened back into the generic float. "
             "Not decided: achieved means, variances, covariances. "
             "Also decided: `transform` of a fitted scaler / whitener takes no statistic across the samples of the matrix it transforms (column means, sums .. of the input). "
-            "`transform` hands the input back untouched for an empty matrix only; no mean of per-block means with one weight per block in the fit statistics.",
+            "`transform` hands the input back untouched for an empty matrix only; no mean of per-block means with one weight per block in the fit statistics. "
+            "Every arm of the norm dispatcher calls norm_l1 / norm_l2 / norm_max or reduces absolute values; every non-optional field a method of a serialisable scaler reads takes part in the serialised form (no `serde(skip)` on a derived flag).",
     "design_ref": "DESIGN.md section 4, C16",
     "note": "Trusted: rustc resolution/typeck, the fact dump. Divisions by singular values in the whiteners are outside the rule (the property claims whitening on full-rank data only).",
     "technique": _T + ": provenance of the output dataset's containers, dominance of the empty-input guard, zero-guard contradiction rule on data-derived divisors",
@@ -220,7 +229,8 @@ CLAIMED["C18"] = {
             "Pca::predict_inplace uses the batch row by row only: no reduction along the batch axis (a batch mean in the centring) enters the projection. Hand-written Clone impls of the parameter sets and models copy every field (derived ones do by construction), no builder method resets another user-settable field to a value that does not depend on its argument, and builder methods that rebuild the struct carry every field; no generic-float / f64 value is narrowed to f32 and stored, and no f32 arithmetic over converted values is widened back into the generic float. "
             "Not decided: orthonormality, ordering, spectral optimality, whitening covariance. "
             "Also decided: the whitening scale is computed from the row count of the decomposed matrix, not from the sample weights; no method of Pca subtracts the mean from data it then hands to predict / transform (which centre themselves). "
-            "No model is returned from Pca::fit before the whitening branch.",
+            "No model is returned from Pca::fit before the whitening branch. "
+            "The numerator of explained_variance_ratio is a squared singular value; counts are not narrowed.",
     "design_ref": "DESIGN.md section 4, C18",
     "note": "Trusted: rustc resolution/typeck, the fact dump; the feature=blas branch cannot be built offline and is not analysed.",
     "technique": _T + ": dominance of input guards over the decomposition, dataflow of the variance divisor to the recorded sample count, symbolic normal form of the transform/inverse composition",
@@ -240,7 +250,8 @@ CLAIMED["C13"] = {
             "Problem set-ups are cross-checked against the solver kind: a nu formulation with two classes of variables (nu-SVC, nu-SVR) requests the nu-constrained solver, every other one the plain solver (the nu-SVR set-up of the pinned tree does not: known finding); the two running bounds of calculate_rho[_nu] are combined only under a finiteness test (one of them is still infinite when no variable of one kind exists, nu = 1); when solve() repeats the working-set selection and replaces the pair, no component of the first selection stays in use. Hand-written Clone impls of the parameter sets and models copy every field (derived ones do by construction), no builder method resets another user-settable field to a value that does not depend on its argument, and builder methods that rebuild the struct carry every field; no generic-float / f64 value is narrowed to f32 and stored, and no f32 arithmetic over converted values is widened back into the generic float. "
             "Not decided: KKT conditions, rho, objective values. "
             "Also decided: in the Permutable impls a field left alone by swap_indices (targets, the kernel, its diagonal) is read through kernel_indices, a field it permutes (signs) is read by position. "
-            "The branch of solve() that folds the support vectors into one hyperplane is taken exactly under is_linear(); positions in the Permutable impls are the trait methods' own parameters and what ranges over 0..length (an index of unknown space is undecided, not a violation).",
+            "The branch of solve() that folds the support vectors into one hyperplane is taken exactly under is_linear(); positions in the Permutable impls are the trait methods' own parameters and what ranges over 0..length (an index of unknown space is undecided, not a violation). "
+            "What is iterated out of the position->sample map (`active_set.iter()`) is a sample index: a position-indexed field read with it is reported like `targets[active_set[i]]`; in tiled loops the end of a tile is computed from that tile's own start; macro-generated predict_inplace bodies overwrite their target.",
     "design_ref": "DESIGN.md section 4, C13",
     "note": "Trusted: rustc resolution/typeck, the fact dump; the index-space tags are inferred from the code's own swap(); sibling rules were confirmed against the reference SMO algorithm.",
     "technique": _T + ": index-space tag inference, stale-loop-bound detection, sibling agreement (deviant-behaviour) rules on SolverState",
@@ -260,7 +271,8 @@ CLAIMED["C14"] = {
             "The stop test may sit in a helper (its match / if value is read as the exit condition). Hand-written Clone impls of the parameter sets and models copy every field (derived ones do by construction), no builder method resets another user-settable field to a value that does not depend on its argument, and builder methods that rebuild the struct carry every field; no generic-float / f64 value is narrowed to f32 and stored, and no f32 arithmetic over converted values is widened back into the generic float. "
             "Not decided: impurity arithmetic, leaf majorities, importances. "
             "Also decided: `check` hands the checked parameter set on unchanged (c04's R-C04-same, so that the limits that reach the fit are the ones the caller set); the split threshold between two neighbouring feature values is strictly below the upper one (R-C14-midpoint; a genuine defect of the pinned tree, repaired). "
-            "relative_impurity_decrease returns no unnormalised values under a positive threshold on their sum.",
+            "relative_impurity_decrease returns no unnormalised values under a positive threshold on their sum. "
+            "The two side-weight accumulators that the sweep moves in step are declared in the same block (both reset per feature); make_prediction's walk is not a counted loop with a constant bound.",
     "design_ref": "DESIGN.md section 4, C14",
     "note": "Trusted: rustc resolution/typeck, the fact dump.",
     "technique": _T + ": sibling agreement of the fit-time and predict-time routing relation, dominance of limit tests over split creation, dependency analysis of weight accumulators, raw-buffer who-may-call rule",
@@ -296,7 +308,8 @@ CLAIMED["C20"] = {
             "parallel float reduction. A lexicographic sort key over hash-map entries ranks no value component that was numbered in hash-iteration order (`map.insert(k, (map.len(), ..))` inside a loop over a hash container, found workspace-wide) before the unique map key; the first element of a hash iterator may seed an incumbent only if every replacement is governed by a total predicate. A comparator that decides ties through arithmetic (tolerance bands, rounded keys) or through an unread local closure is not accepted as total; rayon constructs with per-split state (map_init & co.) must not create generators or counters in that state; Labels::labels no longer hands hash order to callers (allow-list entry removed). "
             "Not decided: floating-point identity across machines, third-party internals. "
             "Also decided: closure parameters lent from outer state (`Zip::from(&mut best).and(&mut *y).for_each(|b, t, ..| ..)` inside a loop over a hash map) are writes to outer state; `next()` under a test that the container has exactly one element, and incumbents replaced under a local closure that decides every pair of entries by value and then by key, are order-insensitive; named constants are literal seeds. "
-            "KMeansInit::run hands no other initialiser's arm over to k-means|| (which is outside the claim); `select_nth_unstable(k)` + `truncate(k)` under a total order is an order-insensitive use of a hash iteration.",
+            "KMeansInit::run hands no other initialiser's arm over to k-means|| (which is outside the claim); `select_nth_unstable(k)` + `truncate(k)` under a total order is an order-insensitive use of a hash iteration. "
+            "FastICA's unseeded generator is reached on the no-seed side of a test of the Option, not under a particular seed *value* (`0 => entropy`); the compiled-tokeniser rule of C17 is part of 'same hyperparameters, same output'.",
     "design_ref": "DESIGN.md section 4, C20",
     "note": "Trusted: rustc resolution/typeck, the fact dump; third-party crates draw entropy only through the listed APIs. Allow-list entries are single symbols with a reason (rules/c20.py).",
     "technique": _T + ": order/entropy/schedule taint classification of every unordered source to its consumer",
@@ -313,7 +326,8 @@ CLAIMED["C05"] = {
             "median_absolute_error reads the middle position(s) of a *fully sorted* error sequence (a selection around one position does not order its neighbours); no sum or difference in the metric code has the same operand on both sides (a trapezoid uses both end points); the class list of a confusion matrix over a dataset is the key set of a label-count cache that starts empty (shared with C02). "
             "Not decided: the numerical definitions themselves - MCC, F-beta, ROC / AUC and its treatment of ties and of the first threshold, log-loss, the regression formulas beyond their degrees, silhouette, Pearson, permutation invariance. "
             "Also decided: the clip bounds of log_loss, evaluated exactly as f32 / f64 constants, lie strictly inside (0, 1) (`1 - MIN_POSITIVE` is 1.0); the class list a confusion matrix is laid out by is sorted where it is used or where it is made (nothing appended after the last sort); no ordering compares floats through their bit patterns. "
-            "Every path of ConfusionMatrix::f1_score returns self.f_score(1); combined_labels drains an iterator that it consumes conditionally (next_if); the covariance behind pearson_correlation is a product of centred data, not a difference of raw moments.",
+            "Every path of ConfusionMatrix::f1_score returns self.f_score(1); combined_labels drains an iterator that it consumes conditionally (next_if); the covariance behind pearson_correlation is a product of centred data, not a difference of raw moments. "
+            "The position of pair (i, j) in the packed correlation triangle is evaluated over the loop nest as written for 4 and 5 features: it counts 0, 1, 2, .. in visiting order (the column-major closed form agrees up to 3 features); counts are not narrowed below 64 bits.",
     "design_ref": "DESIGN.md section 4, C05",
     "note": "Trusted: rustc resolution/typeck, the fact dump; in ToConfusionMatrix::confusion_matrix(&self, ground_truth) the receiver is the prediction. Claimed late in the build (section 5).",
     "technique": _T + ": delegation-name agreement, homogeneity-degree (dimensional) abstract interpretation of the metric formulas, axis-role agreement between the construction of the confusion matrix and its consumers",
@@ -334,7 +348,8 @@ CLAIMED["C06"] = {
             "The polynomial degree is used as given (not converted to an integer for an integer power); the -ln transform is not clamped; builder methods of the clustering and kernel parameters that rebuild the set carry every field and store their arguments unchanged. "
             "Not decided: numerical equality of entries, symmetry up to rounding, positive semidefiniteness, which points the index returns, agreement of dense and sparse products and sums, the linkage algorithm itself (kodama), ties. "
             "Also decided: no bisection (`partition_point`, `binary_search_by`) over the merge steps' dissimilarities (not monotone for centroid / median linkage); a hand-computed offset into the condensed triangle does not divide one factor of r(2n - r - 1) before the product is formed. "
-            "The upper-triangle relation col > row is also read off explicit loops (`for (i, row) in outer_iterator().enumerate()`); no labels are returned before the linkage is computed (a threshold above every pairwise dissimilarity does not bound Ward's merge heights).",
+            "The upper-triangle relation col > row is also read off explicit loops (`for (i, row) in outer_iterator().enumerate()`); no labels are returned before the linkage is computed (a threshold above every pairwise dissimilarity does not bound Ward's merge heights). "
+            "The cap applied to the transformed dissimilarities is the transform of the floor applied before it (constant-branch evaluation of both).",
     "design_ref": "DESIGN.md section 4, C06",
     "note": "Trusted: rustc resolution/typeck, the fact dump; kodama::linkage's documented step numbering; sprs::CsMatBase::new_from_unsorted's argument order. Claimed late in the build (section 5).",
     "technique": _T + ": index / operand agreement of the matrix fill, sign and operand analysis of the kernel arms, buffer-pairing and once-per-row analysis of the CSR construction, canonical relation and statement order of the stop test, remove / insert pairing of the merge, name agreement of the dispatchers",
@@ -352,7 +367,8 @@ CLAIMED["C11"] = {
             "Zero tests that decide whether a column is skipped or the residual is updated are exact comparisons - an absolute tolerance on a quantity that scales with the data makes the fit depend on the unit of the features (they were abs_diff tests: repaired). A residual update that is skipped under a zero test vanishes whenever the tested value is zero (it is a product with it: the residual never goes stale); no filtered list of column positions is zipped with an unfiltered walk over the columns; `Default::default()` and `new()` of the estimators build the same value. "
             "Not decided: optimality itself (KKT conditions, orthogonality of the OLS residual), non-negativity of the gap, convergence within the iteration budget. "
             "Also decided (R-C11-gap, R-C11-blocksoft): floats made from a matrix's `.len()` are element counts, not sample counts; the multi-task dual norm is a maximum over row norms (norm_max on the matrix itself is a violation); the residual is rescaled into the dual feasible set whenever its dual norm exceeds l1_reg (no conjunct narrowing the condition); block_soft_thresholding returns zero on the boundary norm == threshold, so that 0 / 0 is never formed (a genuine defect of the pinned tree, repaired). "
-            "A filter on the features of a sweep may only drop empty columns (screening by the correlation with the target freezes features); the l2,1 norm of the multi-task gap takes the square root per row, before the sum over rows.",
+            "A filter on the features of a sweep may only drop empty columns (screening by the correlation with the target freezes features); the l2,1 norm of the multi-task gap takes the square root per row, before the sum over rows. "
+            "A computation route that only inputs beyond a constant size reach (normal equations for tall problems) is reported as UNDECIDED, never as a violation.",
     "design_ref": "DESIGN.md section 4, C11",
     "note": "Trusted: rustc resolution/typeck, the fact dump. Claimed late in the build (section 5).",
     "technique": _T + ": ingredient (data-dependence) analysis of the published intercept, role agreement of the two penalty terms across the descents and the duality gaps, canonical form of the soft threshold and of the stopping test, branch structure of the OLS fit",
@@ -391,7 +407,8 @@ CLAIMED["C17"] = {
             "The lower end of the document-frequency window is not a truncated (floor) conversion of the relative minimum into a count (it was: repaired - the window now compares relative frequencies). Builder methods of the vectorisers store their arguments unchanged (no case folding, trimming or filtering of stop words or expressions); check_ref compiles the tokeniser expression that is configured now (the write of the compiled form is not skipped because one is already there). "
             "Not decided: the recount itself - what the regex or tokenizer function matches, the float-to-count arithmetic of the frequency window, the three idf formulas, which entries a feature cap keeps (the sort key's reproducibility is decided under C20), the order of the vocabulary. "
             "Also decided: stop words enter the fit-side and the transform-side tokenisation alike (a stop-word filter before the n-grams on one side only is a pipeline difference); an Iterator impl of the n-gram walk that overrides a provided method without going through next() is left undecided. "
-            "The lookup loops of analyze_document have no written-out early exit; the relative document frequency is the quotient count / n, not a product with a precomputed reciprocal.",
+            "The lookup loops of analyze_document have no written-out early exit; the relative document frequency is the quotient count / n, not a product with a precomputed reciprocal. "
+            "The compiled tokeniser follows the expression also through borrow-guard aliases; counts are not narrowed below 64 bits.",
     "design_ref": "DESIGN.md section 4, C17",
     "note": "Trusted: rustc resolution/typeck, the fact dump; HashSet iteration yields each element once; sprs append / iter_mut pair a value with its column index. Claimed late in the build (section 5 explains what changed the earlier not-applicable verdict).",
     "technique": _T + ": sibling agreement of the fit-time and transform-time tokenisation pipelines, tuple-position provenance of map-value components, enumerate-before-filter, index provenance of multipliers",
